@@ -246,6 +246,31 @@ class World:
         members = set(self.children(pkind, pi, kind))
         objs = [self.obj(kind, c) for c in cs]
         how = op.get("as", "list")
+        if how == "view" and f in ("update", "ior", "iand", "isub", "ixor"):
+            # the operand is a live owning collection (another parent's, or this
+            # very one).  With move semantics this has no built-in counterpart
+            # (iterating a set that the moves shrink may even raise RuntimeError);
+            # only the structural invariants are demanded afterwards.
+            qi = op.get("q", 0) % self.n(pkind)
+            other = getattr(self.obj(pkind, qi), COLL_ATTR[kind])
+            donors = self.children(pkind, qi, kind)
+            if qi != pi and f in ("update", "ior", "ixor") and self.movable(kind, donors, pkind, pi) != donors:
+                raise Skip()
+            try:
+                if f == "update":
+                    coll.update(other)
+                elif f == "ior":
+                    coll |= other
+                elif f == "iand":
+                    coll &= other
+                elif f == "isub":
+                    coll -= other
+                else:
+                    coll ^= other
+            except RuntimeError:
+                pass
+            self.resync()
+            return
         if op.get("xk") and f in ("discard", "remove", "isub"):
             # operand of another node kind (for module sets: a node the same
             # module owns through a sibling set): a non-member like any other
@@ -409,6 +434,19 @@ class World:
                     tmp.remove(m)
                 want = [m if x == -1 else x for x in tmp]
             settle(want, ambiguous=same and f == "insert")
+        elif f in ("extend", "iadd") and op.get("as") == "view":
+            # the argument is another IR's (or this IR's) live module list:
+            # no built-in counterpart under move semantics, invariants only
+            qi = op.get("a", 0) % self.n("ir")
+            donors = list(self.order[qi])
+            if qi != ii and self.movable("mod", donors, "ir", ii) != donors:
+                raise Skip()
+            other = self.obj("ir", qi).modules
+            if f == "extend":
+                lst.extend(other)
+            else:
+                lst += other
+            self.resync()
         elif f in ("extend", "iadd"):
             seq = [self.obj("mod", m) for m in ms]
             arg, yielded = self.operand(seq, op.get("as", "list"))
